@@ -9,7 +9,9 @@ stdin : {"cases": [{"data": [[key, kind, value]..], "col_names": [..]|null, "ind
         kind: "float"|"int"|"str"|"obj" (arrays), "scalar"
         op : ["rows", sel] | ["cols", [names], "str"|"list"] | ["addself"] | ["addrows", sel] | ["mul", k]
            | ["copy"] | ["t"] | ["concat", [sel..]] | ["set", key, ["arr", kind, vals] | ["scalar", v]]
-           | ["expr", text, "item"|"cols"]
+           | ["expr", text, "item"|"cols"] | ["del", key]
+           | ["stay", op]  (the derivation op is made from the current table and checked, the current
+                            table stays current: selections and assignments interleave on one source)
         sel: ["poslist", [..]] | ["slice", lo, hi] | ["mask", [..]]
 stdout: {"ctor": [...], "obs": [[...]], "fail": [[...]]}
 """
@@ -152,8 +154,12 @@ def elementwise_failures(src, text, got):
     if not isinstance(got, np.ndarray) or got.shape != (n,):
         return [f"expression {text!r}: result is not one value per row"]
     for i in range(n):
-        env = {c: pyval(src._data[c][i]) for c in src._col_names if src._data[c].dtype.kind in "fi"}
-        want = eval(text, {"__builtins__": {}}, env)
+        try:
+            env = {c: pyval(src._data[c][i]) for c in src._col_names
+                   if isinstance(src._data.get(c), np.ndarray) and src._data[c].dtype.kind in "fi" and len(src._data[c]) == n}
+            want = eval(text, {"__builtins__": {}}, env)
+        except Exception:  # noqa
+            return []      # not an arithmetic expression over the numeric columns of this table: no verdict
         if canon_cell(want) != canon_cell(pyval(got[i])):
             return [f"expression {text!r}: row {i} is {canon_cell(pyval(got[i]))}, element-wise value is {canon_cell(want)}"]
     return []
@@ -179,7 +185,9 @@ def run_case(case):
             f0.append(f"constructor dropped or changed entry {k!r}")
     fails.append(f0)
     ancestors = []
-    for op in case["ops"]:
+    for op0 in case["ops"]:
+        stay = op0[0] == "stay"
+        op = op0[1] if stay else op0
         kind = op[0]
         before = snapshot(cur)
         f = []
@@ -204,6 +212,8 @@ def run_case(case):
             elif kind == "set":
                 v = op[2]
                 cur[op[1]] = v[1] if v[0] == "scalar" else mk_array(v[1], v[2])
+            elif kind == "del":
+                del cur[op[1]]
             elif kind == "expr":
                 got = cur[op[1]] if op[2] == "item" else cur.cols[op[1]][op[1]]
                 f += elementwise_failures(cur, op[1], got)
@@ -213,7 +223,7 @@ def run_case(case):
         except Exception as e:  # noqa
             res = exc(e)
             new = None
-        if kind != "set":
+        if kind not in ("set", "del"):
             after = snapshot(cur)
             if after != before:
                 diff = [k for k in before if before[k] != after[k]]
@@ -243,9 +253,13 @@ def run_case(case):
                 f.append("concatenation has the wrong length")
             if kind == "t" and (len(new) != len(cur._col_names) or len(new._col_names) != len(cur) + 1):
                 f.append("transposition has the wrong shape")
-            ancestors.append((cur, len(cur), list(cur._col_names)))
-            cur = new
-        elif kind == "set" and res[0] == "ok":
+            if stay:
+                ancestors.append((new, len(new), list(new._col_names)))
+            else:
+                ancestors.append((cur, len(cur), list(cur._col_names)))
+                cur = new
+            del ancestors[:-12]
+        elif kind in ("set", "del") and res[0] == "ok":
             f += rect_failures(cur)
         # tables produced earlier in the chain stay rectangular with their length
         # and column list, whatever is done to the tables derived from them
